@@ -157,12 +157,19 @@ class Codec:
 
         msg = rawmsg[valid_idx:].decode("latin-1")
 
-        next_msg = msg[5:].find("8=FIX.")
+        # field values never contain SOH, so only SOH + marker starts a new frame
+        next_msg = msg.find(self.SOH + "8=FIX.")
         if next_msg != -1:
             # Next fix message added, but incomplete
-            next_msg += 5
+            next_msg += 1
         else:
             next_msg = len(msg)
+        # the frame ends with its CheckSum field, the rest belongs to the next one
+        trailer = msg.find(self.SOH + "10=", 0, next_msg)
+        if trailer != -1:
+            trailer_end = msg.find(self.SOH, trailer + 1, next_msg)
+            if trailer_end != -1:
+                next_msg = trailer_end + 1
 
         encoded_msg = rawmsg[valid_idx : next_msg + valid_idx]
 
